@@ -381,3 +381,100 @@ def check_tree_contract():
     return Contract("check_tree", {"s": T.arr(T.int)}, requires=requires, ensures=ensures, setup=setup,
                     loops={0: lo, 1: li}, hooks={"j": hook_j, "tree[].left": hook_left, "tree[].right": hook_right},
                     raises=lambda S, a, e: z3.BoolVal(False))
+
+
+# ------------------------------------------------------------- generate_equations: the file writers (C01, C08)
+def writers_region(fnode):
+    """The block of `with open(..., 'a')` statements inside the loop over shapes (selected by structure: the statements of the
+    `if rank == 0:` inside the `for` that calls shape_to_functions which are `with` statements)."""
+    for s in fnode.body:
+        if isinstance(s, _ast.For) and any(isinstance(n, _ast.Call) and getattr(n.func, "id", None) == "shape_to_functions" for n in _ast.walk(s)):
+            for b in s.body:
+                if isinstance(b, _ast.If) and any(isinstance(w, _ast.With) for w in b.body):
+                    return [w for w in b.body if isinstance(w, _ast.With)]
+    return None
+
+
+def writers_contract():
+    """One physical line per tree in each of the four per-shape files: orig_trees / orig_aifeyn get len(all_tree) lines,
+    extra_trees / extra_aifeyn get len(extra_tree) lines, in list order -- so that line i of the code-length file belongs to
+    line i of the tree file (originals first, rewritten trees after: the two `cat` commands join them in the same order).
+    The text of a tree is an abstract string s = str(t); pprint keeps it on one line iff len(repr(s)) <= width."""
+    from pyvc.engine import LoopSpec
+    from pyvc.models import STRLEN, STRNL, STRROW
+
+    def mk_trees(name):
+        def mk(eng, st):
+            return eng.fresh(T.list(T.list(T.label)), name, st)
+        return mk
+
+    def setup(eng, st, args):
+        eng.contracts["aifeyn_complexity"] = aifeyn_callsite_contract()
+        # A-str (validated at run time on every generated library): the text of a label array / label list has at least the
+        # two brackets, contains no backslash, double quote or control character except the line breaks numpy inserts, and
+        # every line break is followed by at least four more characters (" 'x'")
+        sid, k = z3.Ints("sid!ax k!ax")
+        t = STRROW(sid, k)
+        eng.axioms.append(z3.ForAll([sid, k], z3.And(STRLEN(t) >= 2, STRNL(t) >= 0, 4 * STRNL(t) <= STRLEN(t)), patterns=[t]))
+        from pyvc.models import str_len
+        str_len(eng, eng.label_of("\n"))
+
+    def requires(S, a):
+        out = []
+        for nm in ("all_tree", "extra_tree"):
+            o = S.seq(a[nm])
+            k = z3.Int("k!rq")
+            out.append(("every tree in %s has at least one node" % nm, z3.ForAll([k], z3.Implies(z3.And(0 <= k, k < o.len), S.seq(o.get(k)).len >= 1))))
+        return out
+
+    def inv(S, st):
+        i = S.i(S.var("__i"))
+        out = [("one line per tree written so far", S.var("__lines").t == i)]
+        if "w" in st.env and "pp" in st.env:
+            pp = st.heap[S.var("pp").addr]
+            out.append(("the printer's width is the current w and at least 80", z3.And(S.var("w").t >= 80, S.eng.as_int(pp.fields["width"]) == S.var("w").t)))
+        return out
+
+    def loop_select(node):
+        ls = LoopSpec(inv, havoc_types={"s": T.label, "t": T.list(T.label), "tree": T.list(T.label), "pp": T("obj", "PrettyPrinter", (("width", T.int),))})
+        ls.ghost = ["__lines"]
+        return ls
+
+    def ensures(S, a, res):
+        wr = S.st.ghost.get("written", ())
+        nall, nex = S.seq(a["all_tree"]).len, S.seq(a["extra_tree"]).len
+        want = {"orig_trees": nall, "extra_trees": nex, "orig_aifeyn": nall, "extra_aifeyn": nex}
+        out = [("the four per-shape files are written", z3.BoolVal(len(wr) == 4))]
+        seen = set()
+        for path, mode, lines, lineno in wr:
+            nm = None
+            for cand in want:
+                if cand in str(path.t if hasattr(path, "t") else getattr(path, "s", "")):
+                    nm = cand
+            if nm is None:
+                out.append(("file written at line %d is one of the four per-shape files" % lineno, z3.BoolVal(False)))
+                continue
+            seen.add(nm)
+            out.append(("%s_<n>.txt gets exactly one line per %s tree (appended)" % (nm, "original" if nm.startswith("orig") else "rewritten"),
+                        z3.And(lines == want[nm], z3.BoolVal(mode == "a"))))
+        out.append(("all four files are covered", z3.BoolVal(seen == set(want))))
+        return out
+
+    c = Contract("generate_equations", {"dirname": T.label, "compl": T.int, "all_tree": mk_trees("all_tree"), "extra_tree": mk_trees("extra_tree"),
+                                        "param_list": T.list(T.label)},
+                 requires=requires, ensures=ensures, setup=setup, region=writers_region, raises=lambda S, a, e: z3.BoolVal(False))
+    c.region_name = "writers: one line per tree in the four per-shape files"
+    c.loop_select = loop_select
+    return c
+
+
+def aifeyn_callsite_contract():
+    """aifeyn_complexity as seen by its callers: requires a non-empty tree, returns a finite number (verified separately against
+    the full formula by aifeyn_contract)."""
+    def requires(S, a):
+        return [("tree is non-empty", S.len(a["tree"]) >= 1)]
+
+    def ensures(S, a, res):
+        return [("finite", res.is_fin())]
+    return Contract("aifeyn_complexity", {"tree": T.list(T.label), "param_list": T.list(T.label)}, requires=requires, ensures=ensures,
+                    returns=T.real, raises=lambda S, a, e: z3.BoolVal(False))
